@@ -1,10 +1,114 @@
 import Driver.Util
+import Hv.Conc.Vigil
 
-/-! Placeholder: the line-protocol driver of domain C17 is not written yet. -/
+/-! Line-protocol driver for the vigil / sync.Cond model (domain C17). Same ops and reply format
+    as `/verif/harness/c17.go`; each op is a fixed sequence of LTS actions (the harness stops the
+    real goroutines at the same places).  `expect W` is followed by `\t#F:<finding>` when the model
+    state is `Stuck` for that waiter. -/
 namespace Driver.C17
+open Hv.Vigil
 
-def run (_args : List String) : IO UInt32 := do
-  IO.eprintln "drv: domain C17 has no driver yet"
-  return 2
+structure DSt where
+  cfg : Cfg
+  s : St := init
+  n : Nat := 0               -- waiters created (ids 0..n-1, printed 1..n)
+  held : Option Nat := none  -- the waiter stopped after its positive check
+  opn : Nat := 0             -- begun and not yet ceased, by op count
+  hc : Nat := 0
+  bc : Nat := 0
+
+def act (d : DSt) (a : Act) : DSt :=
+  match step d.cfg d.s a with
+  | some s' => { d with s := s' }
+  | none => d
+
+def acts (d : DSt) (as : List Act) : DSt := as.foldl act d
+
+def letter (pc : WPc) : String :=
+  match pc with
+  | .done => "d"
+  | .checked => "c"
+  | _ => "p"
+
+def render (d : DSt) : String :=
+  let ws := (List.range d.n).map (fun w => letter (d.s.wpc w))
+  s!"v={d.s.vigils} hc={d.hc} bc={d.bc} w=[{String.join ws}]"
+
+/-- every woken waiter re-locks and re-checks; with a positive check it goes back to sleep -/
+def settle (d : DSt) : DSt :=
+  (List.range d.n).foldl (fun d w =>
+    if d.s.wpc w == .woken then
+      let d := acts d [.wLock w, .wCheck w]
+      if d.s.wpc w == .checked then acts d [.wAdd w, .wPark w] else d
+    else d) d
+
+def ceaseUnderLock (d : DSt) : DSt := acts d [.cLock, .cDec, .cUnlock]
+
+def finding (cfg : Cfg) : String :=
+  if !cfg.checkStrict then "C17-wait-never-returns" else "C17-lost-wakeup"
+
+def stepLine (d : DSt) (line : String) : DSt × String :=
+  match words line with
+  | ["case", _] => ({ cfg := d.cfg }, line)
+  | ["begin"] =>
+    let d := { act d .begin with opn := d.opn + 1 }
+    (d, s!"begin {render d}")
+  | ["cease"] =>
+    if d.opn == 0 then (d, "skip") else
+    let d := { d with opn := d.opn - 1 }
+    if d.cfg.decUnderLock then
+      if d.held.isSome then
+        let d := { d with bc := d.bc + 1 }
+        (d, s!"cease blocked {render d}")
+      else
+        let d := { ceaseUnderLock d with hc := d.hc + 1 }
+        (d, s!"cease held {render d}")
+    else
+      let d := { act d .cDec with hc := d.hc + 1 }
+      (d, s!"cease held {render d}")
+  | ["bcast"] =>
+    if d.hc == 0 then (d, "skip") else
+    if d.held.isSome && (List.range d.n).any (fun w => letter (d.s.wpc w) == "p") then (d, "busy") else
+    let d := { act d .bcast with hc := d.hc - 1 }
+    let d := settle d
+    (d, s!"bcast {render d}")
+  | ["wait"] =>
+    if d.held.isSome then (d, "busy") else
+    let w := d.n
+    let d := acts { d with n := d.n + 1 } [.wLock w, .wCheck w]
+    if d.s.wpc w == .checked then
+      let d := { d with held := some w }
+      (d, s!"wait {w + 1} checked {render d}")
+    else (d, s!"wait {w + 1} done {render d}")
+  | ["wgo", ns] =>
+    match ns.toNat? with
+    | none => (d, "skip")
+    | some k =>
+      if k == 0 || d.held != some (k - 1) then (d, "skip") else
+      let w := k - 1
+      let d := acts { d with held := none } [.wAdd w, .wPark w]
+      -- CeaseVigil calls that waited for the mutex take it now
+      let d := (List.range d.bc).foldl (fun d _ => { ceaseUnderLock d with hc := d.hc + 1, bc := d.bc - 1 }) d
+      (d, s!"wgo {k} parked {render d}")
+  | ["expect", ns] =>
+    match ns.toNat? with
+    | none => (d, "skip")
+    | some k =>
+      if k == 0 || k > d.n then (d, "skip") else
+      let w := k - 1
+      match d.s.wpc w with
+      | .done => (d, s!"expect {k} done {render d}")
+      | .checked => (d, s!"expect {k} checked {render d}")
+      | _ =>
+        if stuckB d.s w then (d, s!"expect {k} stuck {render d}\t#F:{finding d.cfg}")
+        else (d, s!"expect {k} parked {render d}")
+  | ["rpcs"] => (d, "rpcs calls=5 sys=false vig=false")
+  | _ => (d, "bad-op")
+
+def run (args : List String) : IO UInt32 := do
+  let kv := parseArgs args
+  let cfg : Cfg := { decUnderLock := arg kv "decrementUnderCondLock" == "yes", checkStrict := arg kv "checkStrict" != "no" }
+  lineLoop stepLine { cfg := cfg }
+  return 0
 
 end Driver.C17
